@@ -818,6 +818,83 @@ example : (rsRun { fo := 20000, fc := 20000, margin := 110, inMove := false }
         { pos := 4000, tstate := 2, dir := 1, rel := 1, target := 80, downT := 300000 } 0) [10000, 500000, 500000]).rel = 0 := by
   decide
 
+/-! ### idle stays idle - with or without calibration, roller shutter and facade blind -/
+
+/-- nothing energised, nothing pending, no task -/
+def Idle (s : RsT) : Prop := s.rel = 0 ∧ s.pend = 0 ∧ s.tstate = 0
+def FbIdle (s : FbT) : Prop := s.rel = 0 ∧ s.pend = 0 ∧ s.tstate = 0
+
+theorem idle_tick (P : RsP) (s : RsT) (dt : Nat) (h : Idle s) :
+    Idle (rsTick P s dt) ∧ (rsTick P s dt).pos = s.pos := by
+  obtain ⟨hr, hp, ht⟩ := h
+  have hacc : account P s dt = { s with upT := 0, downT := 0, sinceStop := s.sinceStop + dt } := by
+    unfold account; rw [if_neg (by omega), if_neg (by omega)]
+  have htask : taskStep P (account P s dt) = { s with upT := 0, downT := 0, sinceStop := s.sinceStop + dt } := by
+    rw [hacc]; unfold taskStep; simp [ht]
+  unfold rsTick; rw [htask]; unfold commStep Idle
+  split
+  · split <;> simp [relOff, hr, hp, ht]
+  · simp [hr, hp, ht]
+
+/-- **C10 (at rest nothing starts the motor)** a shutter with no task, no pending trigger and both outputs off - calibrated or
+    not - keeps its outputs off and its estimate for every sequence of accounting callbacks -/
+theorem c10_idle_run (P : RsP) : ∀ (dts : List Nat) (s : RsT), Idle s →
+    Idle (rsRun P s dts) ∧ (rsRun P s dts).pos = s.pos := by
+  intro dts
+  induction dts with
+  | nil => intro s h; exact ⟨h, rfl⟩
+  | cons dt dts ih =>
+    intro s h
+    unfold rsRun
+    have t := idle_tick P s dt h
+    have r := ih _ t.1
+    exact ⟨r.1, by rw [r.2, t.2]⟩
+
+/-- the stop command reaches that state from anywhere, so after it the outputs stay off - also on a shutter that is not
+    calibrated (where `c10_stop_cmd_stays_off`'s premise fails) -/
+theorem c10_stop_cmd_stays_off_any (P : RsP) (s : RsT) (dts : List Nat) :
+    (rsRun P (moveCmd P s 0) dts).rel = 0 ∧ (rsRun P (moveCmd P s 0) dts).pend = 0 ∧
+    (rsRun P (moveCmd P s 0) dts).tstate = 0 ∧ (rsRun P (moveCmd P s 0) dts).pos = s.pos := by
+  obtain ⟨h1, h2, h3, h4⟩ := c10_stop_cmd_off P s
+  obtain ⟨⟨r1, r2, r3⟩, rp⟩ := c10_idle_run P dts (moveCmd P s 0) ⟨h1, h2, h3⟩
+  exact ⟨r1, r2, r3, by rw [rp, h4]⟩
+
+theorem fb_idle_tick (P : FbP) (s : FbT) (dt : Nat) (h : FbIdle s) :
+    FbIdle (fbTick P s dt) ∧ (fbTick P s dt).pos = s.pos ∧ (fbTick P s dt).tilt = s.tilt := by
+  obtain ⟨hr, hp, ht⟩ := h
+  have hacc : fbAccount P s dt = { s with upT := 0, downT := 0, sinceStop := s.sinceStop + dt } := by
+    unfold fbAccount; rw [if_neg (by omega), if_neg (by omega)]
+  have htask : fbTaskStep P (fbAccount P s dt) = { s with upT := 0, downT := 0, sinceStop := s.sinceStop + dt } := by
+    rw [hacc]; unfold fbTaskStep; simp [ht]
+  unfold fbTick; rw [htask]; unfold fbCommStep FbIdle
+  split
+  · split <;> simp [fbRelOff, hr, hp, ht]
+  · simp [hr, hp, ht]
+
+/-- the same for a facade blind: position and tilt estimates untouched, outputs off, for every callback sequence -/
+theorem c10_fb_idle_run (P : FbP) : ∀ (dts : List Nat) (s : FbT), FbIdle s →
+    FbIdle (fbRun P s dts) ∧ (fbRun P s dts).pos = s.pos ∧ (fbRun P s dts).tilt = s.tilt := by
+  intro dts
+  induction dts with
+  | nil => intro s h; exact ⟨h, rfl, rfl⟩
+  | cons dt dts ih =>
+    intro s h
+    unfold fbRun
+    have t := fb_idle_tick P s dt h
+    have r := ih _ t.1
+    exact ⟨r.1, by rw [r.2.1, t.2.1], by rw [r.2.2, t.2.2]⟩
+
+/-- **C10 (a stop command ends everything, facade blind)** from any state of a blind (task in any of its stages, tilting, a
+    request waiting for the trigger) the stop command leaves the outputs off, and every callback sequence keeps them off -/
+theorem c10_fb_stop_cmd_stays_off (P : FbP) (s : FbT) (dts : List Nat) :
+    (fbRun P (fbMoveCmd P s 0) dts).rel = 0 ∧ (fbRun P (fbMoveCmd P s 0) dts).pend = 0 ∧
+    (fbRun P (fbMoveCmd P s 0) dts).tstate = 0 ∧ (fbRun P (fbMoveCmd P s 0) dts).pos = s.pos ∧
+    (fbRun P (fbMoveCmd P s 0) dts).tilt = s.tilt := by
+  have h0 : FbIdle (fbMoveCmd P s 0) ∧ (fbMoveCmd P s 0).pos = s.pos ∧ (fbMoveCmd P s 0).tilt = s.tilt := by
+    simp [fbMoveCmd, fbRelOff, FbIdle]
+  obtain ⟨⟨r1, r2, r3⟩, rp, rt⟩ := c10_fb_idle_run P dts (fbMoveCmd P s 0) h0.1
+  exact ⟨r1, r2, r3, by rw [rp, h0.2.1], by rw [rt, h0.2.2]⟩
+
 /-- **C10 (the newest request wins)** a request made while the shutter is on its way somewhere else (a task running or an
     output energised) always becomes the task - also when the reported position happens to equal the requested one at
     that moment (before the repair in /repo such a request was ignored and the shutter ran on to the old target) -/
